@@ -217,6 +217,8 @@ def part_I(ctx, seedval, only=None):
             for bx in ((), kb, (1,) * len(kb)):
                 if ctx.quick and only is None and bx and bx != kb and (WRAPPERS.index(name) + len(kb)) % 2:
                     continue
+                if ctx.quick and only is None and len(kb) > 1 and (WRAPPERS.index(name) + seedval) % 3:
+                    continue
                 if only is not None and (name, list(kb), list(bx)) != tuple(only):
                     continue
                 n1, n2 = 4, 3
@@ -255,10 +257,10 @@ def part_I(ctx, seedval, only=None):
                     idxs = idxs[:len(per_dim[0])] + rng.sample(idxs[len(per_dim[0]):], min(10, len(idxs) - len(per_dim[0])))
                 rowcol = [(), (("S", 1, None, None), ("S", None, 2 * t, None))]
                 if t == 1 and not ctx.quick:
-                    rowcol += [(("I", 0), ("S", None, None, None)), (("S", None, None, 2), ("T", (2, 0)))]
+                    rowcol += [(("S", None, None, 2), ("T", (2, 0)))]
                 for lazy in (True, False):
                     for bi in (idxs if lazy or not ctx.quick else idxs[::2]):
-                        for rc in (rowcol if lazy else rowcol[:1 if ctx.quick else 2]):
+                        for rc in (rowcol if lazy else rowcol[:1]):
                             if rc and any(i[0] == "T" for i in bi) and any(i[0] == "T" for i in rc):
                                 continue
                             idx = tuple(bi) + tuple(rc)
@@ -480,3 +482,472 @@ def part_J(ctx, seedval, only=None):
                         ctx.fail("ldb:repeat", f"{name} kernel batch {kb}, inputs batch {bx}, lazy={lazy}: "
                                  f"kernel(x1,x2,last_dim_is_batch=True).repeat{tuple(r_)} differs from the repeated dense tensor: "
                                  f"{M._maxerr(got, want)}", dict(base, what=f"repeat{r_}", lazy=lazy))
+
+
+# ------------------------------------------------------------------ K: the REGENERATED kernels (Gen/KernelCall.lean) vs the real code
+
+def _bits(s):
+    import struct
+    if s in ("-", ""):
+        return []
+    return [struct.unpack("<d", struct.pack("<Q", int(t)))[0] for t in s.split(",")]
+
+
+def gen_kernels():
+    """name -> (constructor(batch_shape), family(same) , theta(kernel, flat batch index, d))   — one real kernel per
+    regenerated family; parameters are read from the real module (after the constraint transform)"""
+    import torch
+    from gpytorch import kernels as K
+    M = _M()
+    D = M.D_IN
+
+    def B(b):
+        return torch.Size(b)
+
+    def vec(t, j, d):          # per-dimension parameter of batch element j, broadcast to d entries
+        v = t.detach().reshape(-1, t.shape[-1])[j].tolist()
+        return v * d if len(v) == 1 else v
+
+    def sc(t, j):
+        return [t.detach().reshape(-1)[j].item()]
+
+    G = {}
+    G["rbf_fast"] = (lambda b: K.RBFKernel(batch_shape=B(b)), lambda same: "rbfFast",
+                     lambda k, j, d: (vec(k.lengthscale, j, d), [], sc(k.lengthscale, j), 0))
+    G["rbf_ard"] = (lambda b: K.RBFKernel(ard_num_dims=D, batch_shape=B(b)), lambda same: "rbfGeneric",
+                    lambda k, j, d: (vec(k.lengthscale, j, d), [], [0.0], 0))
+    for nu, tag in ((0.5, "12"), (1.5, "32"), (2.5, "52")):
+        G[f"matern{tag}_fast"] = (lambda b, nu=nu: K.MaternKernel(nu=nu, batch_shape=B(b)), lambda same, tag=tag: f"matern{tag}Fast",
+                                  lambda k, j, d: ([], [], sc(k.lengthscale, j), 0))
+        G[f"matern{tag}_ard"] = (lambda b, nu=nu: K.MaternKernel(nu=nu, ard_num_dims=D, batch_shape=B(b)),
+                                 lambda same, tag=tag: f"matern{tag}Generic", lambda k, j, d: (vec(k.lengthscale, j, d), [], [0.0], 0))
+    G["rq"] = (lambda b: K.RQKernel(batch_shape=B(b)), lambda same: "rq",
+               lambda k, j, d: (vec(k.lengthscale, j, d), [], sc(k.alpha, j), 0))
+    G["rq_ard"] = (lambda b: K.RQKernel(ard_num_dims=D, batch_shape=B(b)), lambda same: "rq",
+                   lambda k, j, d: (vec(k.lengthscale, j, d), [], sc(k.alpha, j), 0))
+    G["periodic"] = (lambda b: K.PeriodicKernel(batch_shape=B(b)), lambda same: "periodic",
+                     lambda k, j, d: (vec(k.lengthscale, j, d), vec(k.period_length, j, d), [0.0], 0))
+    G["periodic_ard"] = (lambda b: K.PeriodicKernel(ard_num_dims=D, batch_shape=B(b)), lambda same: "periodic",
+                         lambda k, j, d: (vec(k.lengthscale, j, d), vec(k.period_length, j, d), [0.0], 0))
+    G["cosine"] = (lambda b: K.CosineKernel(batch_shape=B(b)), lambda same: "cosine",
+                   lambda k, j, d: ([], [], sc(k.period_length, j), 0))
+    G["linear"] = (lambda b: K.LinearKernel(batch_shape=B(b)), lambda same: "linearSame" if same else "linear",
+                   lambda k, j, d: (vec(k.variance, j, d), [], [0.0], 0))
+    G["linear_ard"] = (lambda b: K.LinearKernel(ard_num_dims=D, batch_shape=B(b)), lambda same: "linearSame" if same else "linear",
+                       lambda k, j, d: (vec(k.variance, j, d), [], [0.0], 0))
+    for pw in (2, 3):
+        G[f"poly{pw}"] = (lambda b, pw=pw: K.PolynomialKernel(power=pw, batch_shape=B(b)), lambda same: "polynomial",
+                          lambda k, j, d, pw=pw: ([], [], sc(k.offset, j), pw))
+    for q in range(4):
+        G[f"pp{q}"] = (lambda b, q=q: K.PiecewisePolynomialKernel(q=q, batch_shape=B(b)), lambda same, q=q: f"pp{q}",
+                       lambda k, j, d: (vec(k.lengthscale, j, d), [], [0.0], 0))
+    G["constant"] = (lambda b: K.ConstantKernel(batch_shape=B(b)), lambda same: "constant",
+                     lambda k, j, d: ([], [], sc(k.constant, j), 0))
+    return G
+
+
+GEN_DIAG = {"rbf_fast": "rbf", "rbf_ard": "rbf", "rq": "rq", "rq_ard": "rq", "periodic": "periodic", "periodic_ard": "periodic",
+            "poly2": "polynomial", "poly3": "polynomial", "constant": "constant"}
+K_PATTERNS = [((), (), ()), ((2,), (2,), (2,)), ((2,), (), ()), ((), (2,), (2,)), ((), (1,), (2,)), ((2, 3), (3,), (2, 1))]
+
+
+def _theta_tokens(C, th):
+    ls, ps, s, k = th
+    return f"{len(ls)} " + " ".join(C.rat_str(v) for v in ls) + f" {len(ps)} " + " ".join(C.rat_str(v) for v in ps) + \
+        f" {C.rat_str(s[0])} {k}"
+
+
+def _k_indexes(bs, n1, n2, rng, quick):
+    """index expressions (c06 item encoding): rows / columns of every kind, batch ints / slices / index tensors"""
+    S = ("S", None, None, None)
+    rc = [(S, S), (("S", 1, None, None), ("S", None, 2, None)), (("S", None, None, 2), ("I", 1)), (("I", 0), S),
+          (("T", (n1 - 1, 0)), ("S", 1, None, None)), (("S", None, 2, None), ("T", (0, n2 - 1, 0))), (("I", -n1), ("I", 0))]
+    out = []
+    if not bs:
+        return [tuple(x) for x in rc]
+    bforms = [[S, ("I", 0), ("I", -1), ("S", 1, None, None), ("T", tuple(range(b - 1, -1, -1)))] for b in bs]
+    import itertools as it
+    allb = [tuple(x) for x in it.product(*bforms) if sum(1 for i in x if i[0] == "T") <= 1]
+    if quick and len(allb) > 4:
+        allb = allb[:1] + rng.sample(allb[1:], 3)
+    elif len(allb) > 9:
+        allb = allb[:1] + rng.sample(allb[1:], 8)
+    for bi in allb:
+        for r_ in ([rc[1], rc[rng.randrange(2, len(rc))]] if quick else rc):
+            if any(i[0] == "T" for i in bi) and any(i[0] == "T" for i in r_):
+                continue
+            out.append(bi + tuple(r_))
+    return out
+
+
+def part_K(ctx, seedval, lines, recs):
+    """Every regenerated family: the generated matrix-level forward (Lean `Float`, the definitions `gen_kernel_pairwise`
+    is about) vs the real kernel — on the full inputs, on sub-selected rows / batch elements (lazy `_getitem` path and the
+    kernel called directly on the selected rows), with different and with aliased inputs."""
+    import torch
+    import gpytorch
+    from lib import common as C
+    M = _M()
+    D = M.D_IN
+    rng = ctx.rng("K")
+    G = gen_kernels()
+    n1, n2 = 4, 3
+    for name, (fac, famf, thf) in G.items():
+        for pi, (kb, b1, b2) in enumerate(K_PATTERNS):
+            if ctx.quick and pi >= 2 and (pi + list(G).index(name)) % 4:
+                continue
+            kernel = fac(kb)
+            gp = M._gen(seedval, f"K:params:{name}:{kb}")
+            with torch.no_grad():
+                for p in kernel.parameters():
+                    p.copy_(0.6 * torch.randn(p.shape, generator=gp, dtype=torch.float64))
+            kernel.double()
+            kernel.eval()
+            g = M._gen(seedval, f"K:{name}:{kb}:{b1}:{b2}")
+            xa, xb = M._randn(g, *b1, n1, D), M._randn(g, *b2, n2, D)
+            nkb = 1
+            for v in kb:
+                nkb *= v
+            par = " ".join(_theta_tokens(C, thf(kernel, j, D)) for j in range(nkb))
+            for alias in (False, True):
+                if alias and tuple(b1) != tuple(b2):
+                    continue
+                x1 = xa
+                x2 = xa if alias else xb
+                m1, m2 = x1.shape[-2], x2.shape[-2]
+                same = bool(torch.equal(x1, x2))
+                fam = famf(same)
+                try:
+                    with torch.no_grad(), warnings.catch_warnings(), gpytorch.settings.lazily_evaluate_kernels(False):
+                        warnings.simplefilter("ignore")
+                        Dn = M._dense(kernel(x1, x2)).detach()
+                except Exception as e:
+                    ctx.count("K_cells_rejected_by_kernel")
+                    ctx.notes.setdefault("K_cells_rejected", {})[f"{name}:{kb}:{b1}:{b2}"] = f"{type(e).__name__}: {str(e)[:80]}"
+                    continue
+                bs = tuple(Dn.shape[:-2])
+                hd = f"{M._sh(kb)} ; {M._sh(b1)} ; {M._sh(b2)} ; {m1} {m2} {D}"
+                d1 = " ".join(C.rat_str(v) for v in x1.reshape(-1).tolist())
+                d2 = " ".join(C.rat_str(v) for v in x2.reshape(-1).tolist())
+                for idx in _k_indexes(bs, m1, m2, rng, ctx.quick):
+                    pidx = tuple(M.py_item(i) for i in idx)
+                    try:
+                        want = Dn[pidx]
+                    except Exception:
+                        continue
+                    if 0 in want.shape or M.rowcol_minus_one(idx, Dn.dim()):
+                        continue
+                    obs = {}
+                    with torch.no_grad(), warnings.catch_warnings():
+                        warnings.simplefilter("ignore")
+                        try:
+                            with gpytorch.settings.lazily_evaluate_kernels(True):
+                                obs["lazy"] = M._dense(kernel(x1, x2)[pidx]).detach()
+                        except Exception as e:
+                            obs["lazy"] = None
+                            ctx.count("K_lazy_rejected")
+                    lines.append(f"gk {fam} | {hd} | {par} | {d1} | {d2} | {M.enc_idx(idx)}")
+                    recs.append(("Kgk", dict(name=name, fam=fam, kb=kb, b1=b1, b2=b2, alias=alias, idx=idx, want=want, full=Dn,
+                                             lazy=obs["lazy"], same=same), None))
+                # swapped / row-repeated / stacked inputs (x2 != x1 only)
+                if not alias:
+                    r_, c_ = 2, 3
+                    obs = {}
+                    with torch.no_grad(), warnings.catch_warnings(), gpytorch.settings.lazily_evaluate_kernels(True):
+                        warnings.simplefilter("ignore")
+                        try:
+                            obs["swap"] = M._dense(kernel(x2, x1)).detach()
+                            obs["mT"] = M._dense(kernel(x1, x2).mT).detach()
+                            obs["rep"] = M._dense(kernel(x1, x2).repeat(*([1] * len(bs)), r_, c_)).detach()
+                            if tuple(b1) == tuple(b2):
+                                xs = torch.cat([x1, x2], dim=-2)
+                                obs["stack"] = M._dense(kernel(xs, xs)).detach()
+                        except Exception as e:
+                            ctx.count("K_aux_rejected")
+                            obs = None
+                    if obs is not None:
+                        lines.append(f"gkx {fam} | {hd} | {par} | {d1} | {d2} | {r_} {c_}")
+                        recs.append(("Kgkx", dict(name=name, fam=fam, kb=kb, b1=b1, b2=b2, obs=obs, full=Dn, reps=(r_, c_)), None))
+                # diag=True
+                if name in GEN_DIAG and m1 == m2:
+                    try:
+                        with torch.no_grad(), warnings.catch_warnings(), gpytorch.settings.lazily_evaluate_kernels(False):
+                            warnings.simplefilter("ignore")
+                            dv = M._dense(kernel(x1, x2, diag=True)).detach()
+                        lines.append(f"gkd {GEN_DIAG[name]} | {hd} | {par} | {d1} | {d2}")
+                        recs.append(("Kgkd", dict(name=name, kb=kb, b1=b1, b2=b2, alias=alias, diag=dv, full=Dn, same=same,
+                                                  fast=(name == "rbf_fast")), None))
+                    except Exception as e:
+                        ctx.count("K_diag_rejected")
+                elif name in GEN_DIAG and not alias and tuple(b1) == tuple(b2):
+                    # square problem for the diag comparison
+                    x2s = M._randn(g, *b2, m1, D)
+                    try:
+                        with torch.no_grad(), warnings.catch_warnings(), gpytorch.settings.lazily_evaluate_kernels(False):
+                            warnings.simplefilter("ignore")
+                            Ds = M._dense(kernel(x1, x2s)).detach()
+                            dv = M._dense(kernel(x1, x2s, diag=True)).detach()
+                        d2s = " ".join(C.rat_str(v) for v in x2s.reshape(-1).tolist())
+                        lines.append(f"gkd {GEN_DIAG[name]} | {M._sh(kb)} ; {M._sh(b1)} ; {M._sh(b2)} ; {m1} {m1} {D} | {par} | {d1} | {d2s}")
+                        recs.append(("Kgkd", dict(name=name, kb=kb, b1=b1, b2=b2, alias=False, diag=dv, full=Ds, same=False,
+                                                  fast=(name == "rbf_fast")), None))
+                    except Exception as e:
+                        ctx.count("K_diag_rejected")
+    part_K_call(ctx, seedval, lines, recs)
+
+
+def _arange_like(kind, base):
+    import torch
+    if kind[0] == "v":
+        return torch.arange(kind[1], dtype=torch.float64) + base
+    _, b, n, d = kind
+    num = n * d
+    for v in b:
+        num *= v
+    return (torch.arange(num, dtype=torch.float64) + base).reshape(*b, n, d)
+
+
+def _kind_txt(kind):
+    M = _M()
+    if kind is None:
+        return "N"
+    if kind[0] == "v":
+        return f"v {kind[1]}"
+    return f"m {M._sh(kind[1])} {kind[2]} {kind[3]}"
+
+
+def part_K_call(ctx, seedval, lines, recs):
+    """`Kernel.__call__`: the regenerated input preparation run on arange tensors vs the tensors the real `__call__` hands
+    to `forward` (exact); the regenerated `res.diagonal()` decision vs the shape the real call returns; the regenerated
+    branch conditions of RBF / Matérn `forward` vs whether the fast autograd Function is entered."""
+    import torch
+    import gpytorch
+    from gpytorch import kernels as K
+    M = _M()
+    # ---- input preparation
+    x1kinds = [("m", (), 3, 3), ("m", (2,), 3, 3), ("v", 3), ("m", (), 2, 1)]
+    x2kinds = [None, ("m", (), 2, 3), ("m", (2,), 4, 3), ("v", 4), ("m", (), 2, 2), ("m", (), 3, 1)]
+    for ad in (None, [0, 2], [2, 0], [1], [0]):
+        for ard, debug in ((None, False), (None, True), (2, True), (1, True), (3, True), (2, False)):
+            for k1 in x1kinds:
+                for k2 in x2kinds:
+                    if ad is not None and any(k is not None and ((k[0] == "v" and k[1] <= max(ad)) or (k[0] == "m" and k[3] <= max(ad)))
+                                              for k in (k1, k2)):
+                        continue                      # index_select out of range: torch's own IndexError
+                    kw = {}
+                    if ad is not None:
+                        kw["active_dims"] = ad
+                    if ard is not None:
+                        kw["ard_num_dims"] = ard
+                    kern = K.RBFKernel(**kw).double()
+                    seen = {}
+
+                    def spy(a, b, **params):
+                        seen["x1"], seen["x2"], seen["same_obj"] = a, b, a is b
+                        return torch.zeros(*torch.broadcast_shapes(a.shape[:-2], b.shape[:-2]), a.shape[-2], b.shape[-2], dtype=a.dtype)
+                    kern.forward = spy
+                    a = _arange_like(k1, 0)
+                    b = None if k2 is None else _arange_like(k2, 100000)
+                    try:
+                        with gpytorch.settings.debug(debug), gpytorch.settings.lazily_evaluate_kernels(False), warnings.catch_warnings():
+                            warnings.simplefilter("ignore")
+                            kern(a, b)
+                        outcome = "ok"
+                    except RuntimeError as e:
+                        outcome = "raised" if ("same number of dimensions" in str(e) or "Expected the input to have" in str(e)) \
+                            else f"crashed:{type(e).__name__}: {str(e)[:80]}"
+                    except Exception as e:
+                        outcome = f"crashed:{type(e).__name__}: {str(e)[:80]}"
+                    lines.append(f"cprep {'N' if ad is None else ','.join(map(str, ad))} ; {int(debug)} ; {'N' if ard is None else ard} ; "
+                                 f"{_kind_txt(k1)} ; {_kind_txt(k2)}")
+                    recs.append(("Kprep", dict(outcome=outcome, seen=dict(seen), ad=ad, ard=ard, debug=debug, k1=k1, k2=k2), None))
+    # ---- diag post-processing: what forward returns -> what __call__ returns
+    class FullAlways(K.RBFKernel):
+        """a kernel that ignores `diag`: forward always returns the full matrix"""
+        def forward(self, x1, x2, diag=False, **params):
+            return super().forward(x1, x2, diag=False, **params)
+    n = 3
+    pats = list(M.PATTERNS_QUICK)
+    for cls_name, cls in (("rbf", K.RBFKernel), ("full-always", FullAlways), ("linear", K.LinearKernel)):
+        for (kb, b1, b2) in pats:
+            for ldb in (False, True):
+                kern = cls(batch_shape=torch.Size(kb)).double()
+                g = M._gen(seedval, f"Kdiag:{kb}:{b1}:{b2}")
+                x1, x2 = M._randn(g, *b1, n, M.D_IN), M._randn(g, *b2, n, M.D_IN)
+                try:
+                    with torch.no_grad(), gpytorch.settings.lazily_evaluate_kernels(False), warnings.catch_warnings():
+                        warnings.simplefilter("ignore")
+                        res = kern.forward(x1, x2, diag=True, last_dim_is_batch=ldb)
+                        res = res if torch.is_tensor(res) else res.to_dense()
+                        out = kern(x1, x2, diag=True, last_dim_is_batch=ldb)
+                        out = out if torch.is_tensor(out) else out.to_dense()
+                except Exception as e:
+                    ctx.count("K_cdiag_rejected")
+                    continue
+                l2 = list(res.shape[-2:]) if res.dim() >= 2 else [0, 0]
+                lines.append(f"cdiag {M._sh(b1)} ; {M._sh(b2)} ; {M._sh(kb)} ; {n} {n} {int(ldb)} {res.dim()} {l2[0]} {l2[1]}")
+                recs.append(("Kcdiag", dict(cls=cls_name, kb=kb, b1=b1, b2=b2, ldb=ldb, res_shape=tuple(res.shape),
+                                            out_shape=tuple(out.shape)), None))
+    # ---- branch conditions
+    import gpytorch.kernels.rbf_kernel as RB
+    import gpytorch.kernels.matern_kernel as MA
+    for which, mod, attr, mk in (("rbf", RB, "RBFCovariance", lambda ard: K.RBFKernel(ard_num_dims=ard)),
+                                 ("matern", MA, "MaternCovariance", lambda ard: K.MaternKernel(nu=1.5, ard_num_dims=ard))):
+        orig = getattr(mod, attr)
+        for g1, g2, ard, diag, ldb, tr in itertools.product((0, 1), (0, 1), (None, 1, 3), (0, 1), (0, 1), (0, 1)):
+            hit = {"fast": False}
+
+            class Spy:
+                @staticmethod
+                def apply(*a, **k):
+                    hit["fast"] = True
+                    return orig.apply(*a, **k)
+            setattr(mod, attr, Spy)
+            try:
+                kern = mk(ard).double()
+                x1 = torch.randn(3, 3, dtype=torch.float64, requires_grad=bool(g1))
+                x2 = torch.randn(3, 3, dtype=torch.float64, requires_grad=bool(g2))
+                with gpytorch.settings.trace_mode(bool(tr)), warnings.catch_warnings():
+                    warnings.simplefilter("ignore")
+                    kern.forward(x1, x2, diag=bool(diag), last_dim_is_batch=bool(ldb))
+                ok = True
+            except Exception as e:
+                ok = False
+            finally:
+                setattr(mod, attr, orig)
+            if not ok:
+                ctx.count("K_branch_rejected")
+                continue
+            lines.append(f"gbranch {which} {g1} {g2} {'N' if ard is None else ard} {diag} {ldb} {tr}")
+            recs.append(("Kbranch", dict(which=which, generic=not hit["fast"], cfg=(g1, g2, ard, diag, ldb, tr)), None))
+
+
+def compare_K(ctx, kind, data, line, rep):
+    import torch
+    M = _M()
+    short = line[:160]
+    if rep in ("bad-request", "none"):
+        ctx.broke("correspondence", "generated kernels: driver", f"`{short}` -> {rep}")
+        return
+    if kind == "Kgk":
+        f = dict(p.split("=", 1) for p in rep.split(";"))
+        want, full, lazy = data["want"], data["full"], data["lazy"]
+        tag = f"K|{data['name']}|{data['kb']}|{data['b1']}|{data['b2']}|alias={int(data['alias'])}|{M.enc_idx(data['idx'])}"
+        ctx.case(tag, nontrivial=want.numel() < full.numel())
+        shape = [] if f["shape"] == "-" else [int(v) for v in f["shape"].split(",")]
+        where = (f"{data['name']} (family {data['fam']}) kernel batch {data['kb']}, x1 batch {data['b1']}, x2 batch {data['b2']}, "
+                 f"{'x2 is x1' if data['alias'] else 'x2 != x1'}, index {M.show_idx(data['idx'])}")
+        if shape != list(want.shape):
+            ctx.broke("correspondence", "generated kernels: index bookkeeping", f"{where}: model shape {shape}, torch {list(want.shape)}")
+            return
+        if f["same"].split(",")[0] != ("true" if data["same"] else "false"):
+            ctx.broke("correspondence", "generated kernels: torch.equal flag", f"{where}: driver {f['same']}, torch.equal {data['same']}")
+        gl = torch.tensor(_bits(f["lazy"]), dtype=torch.float64).reshape(want.shape)
+        gd = torch.tensor(_bits(f["direct"]), dtype=torch.float64).reshape(want.shape)
+        gf = torch.tensor(_bits(f["full"]), dtype=torch.float64).reshape(full.shape)
+        # (1) the regenerated forward on the FULL inputs is the real kernel matrix
+        if not M._close(gf, full):
+            ctx.broke("correspondence", f"generated {data['fam']} vs {data['name']}: full matrix",
+                      f"{where}: regenerated matrix-level forward vs kernel(x1,x2).to_dense(): {M._maxerr(gf, full)}")
+            return
+        # (2) on the SUB-SELECTED rows / batch elements: what the lazy path computes, and the selected dense entries
+        if not M._close(gd, want):
+            ctx.broke("correspondence", f"generated {data['fam']} vs {data['name']}: selected entries",
+                      f"{where}: selected entries of the regenerated matrix vs kernel(x1,x2).to_dense()[idx]: {M._maxerr(gd, want)}")
+        if lazy is not None and not M._close(gl, lazy):
+            ctx.broke("correspondence", f"generated {data['fam']} vs {data['name']}: sub-selected rows",
+                      f"{where}: regenerated forward run on the selected rows (its own centres / flag) vs "
+                      f"kernel(x1,x2)[idx].to_dense(): {M._maxerr(gl, lazy)}")
+        # (3) observed, not proved: independence of the row subset in floating point (Lean Float vs Lean Float)
+        if want.numel():
+            dev = (gl - gd).abs().max().item()
+            ctx.notes["K_float_row_subset_max_abs_dev"] = max(ctx.notes.get("K_float_row_subset_max_abs_dev", 0.0), dev)
+            if not M._close(gl, gd):
+                ctx.broke("correspondence", f"generated {data['fam']}: row-subset independence in floating point",
+                          f"{where}: the regenerated forward on the selected rows differs from the selected entries of the "
+                          f"regenerated forward on all rows by {dev:.3e} (exact equality is `gen_getitem_commutes`)")
+    elif kind == "Kgkd":
+        f = dict(p.split("=", 1) for p in rep.split(";"))
+        dv, full = data["diag"], data["full"]
+        tag = f"Kd|{data['name']}|{data['kb']}|{data['b1']}|{data['b2']}|alias={int(data['alias'])}"
+        ctx.case(tag)
+        wantd = full.diagonal(dim1=-1, dim2=-2)
+        where = f"{data['name']} kernel batch {data['kb']}, x1 batch {data['b1']}, x2 batch {data['b2']}, {'x2 is x1' if data['alias'] else 'x2 != x1'}"
+        gdv = torch.tensor(_bits(f["diag"]), dtype=torch.float64).reshape(wantd.shape)
+        gfd = torch.tensor(_bits(f["fulldiag"]), dtype=torch.float64).reshape(wantd.shape)
+        real = dv.expand(wantd.shape) if dv.shape != wantd.shape and dv.numel() <= wantd.numel() else dv
+        if not M._close(gdv, real):
+            ctx.broke("correspondence", f"generated diag=True branch vs {data['name']}",
+                      f"{where}: regenerated `diag=True` forward vs kernel(x1,x2,diag=True): {M._maxerr(gdv, real)}")
+        if not M._close(gfd, wantd):
+            ctx.broke("correspondence", f"generated matrix diagonal vs {data['name']}",
+                      f"{where}: diagonal of the regenerated matrix vs diagonal of kernel(x1,x2).to_dense(): {M._maxerr(gfd, wantd)}")
+        if data["fast"] and f["fastdiag"] != "-":
+            gff = torch.tensor(_bits(f["fastdiag"]), dtype=torch.float64).reshape(wantd.shape)
+            if not M._close(gff, wantd):
+                ctx.broke("correspondence", "generated fast-path matrix diagonal vs rbf",
+                          f"{where}: diagonal of the regenerated fast-path matrix vs the real one: {M._maxerr(gff, wantd)}")
+    elif kind == "Kgkx":
+        f = dict(p.split("=", 1) for p in rep.split(";"))
+        obs, full = data["obs"], data["full"]
+        ctx.case(f"Kx|{data['name']}|{data['kb']}|{data['b1']}|{data['b2']}")
+        where = f"{data['name']} (family {data['fam']}) kernel batch {data['kb']}, x1 batch {data['b1']}, x2 batch {data['b2']}"
+        for key, real in (("swap", obs["swap"]), ("swap", obs["mT"]), ("rep", obs["rep"]), ("stack", obs.get("stack"))):
+            if real is None or f[key] == "-":
+                continue
+            gen = torch.tensor(_bits(f[key]), dtype=torch.float64)
+            if gen.numel() != real.numel():
+                ctx.broke("correspondence", f"generated {data['fam']}: {key}: shape", f"{where}: {gen.numel()} entries vs {tuple(real.shape)}")
+                continue
+            gen = gen.reshape(real.shape)
+            if not M._close(gen, real):
+                ctx.broke("correspondence", f"generated {data['fam']} vs {data['name']}: {key}",
+                          f"{where}: regenerated forward on {'(x2, x1)' if key == 'swap' else 'row-repeated inputs' if key == 'rep' else 'stacked inputs'} "
+                          f"vs the real {'kernel(x2,x1) / kernel(x1,x2).mT' if key == 'swap' else 'kernel(x1,x2).repeat' if key == 'rep' else 'kernel(cat(x1,x2), cat(x1,x2))'}: "
+                          f"{M._maxerr(gen, real)}")
+    elif kind == "Kprep":
+        ctx.case("Kp|" + line)
+        want = data["outcome"]
+        cfg = f"active_dims={data['ad']} ard_num_dims={data['ard']} debug={data['debug']} x1={data['k1']} x2={data['k2']}"
+        if want != "ok" or not rep.startswith("ok;"):
+            got = rep.split(";")[0]
+            if got != want.split(":")[0] or want.startswith("crashed") or got == "crashed":
+                ctx.broke("correspondence", "generated Kernel.__call__ preparation: outcome",
+                          f"{cfg}: regenerated statement list -> {got}, real __call__ -> {want}")
+            return
+        parts = dict(p.split("=", 1) for p in rep.split(";")[1:])
+        for nm in ("x1", "x2"):
+            t = data["seen"][nm]
+            toks = parts[nm].split(" ")
+            okk = toks[0] == "m" and t.dim() >= 2
+            if okk:
+                bsh = [] if toks[1] == "-" else [int(v) for v in toks[1].split(",")]
+                vals = [] if toks[4] == "-" else [int(v) for v in toks[4].split(",")]
+                okk = list(t.shape) == bsh + [int(toks[2]), int(toks[3])] and [int(v) for v in t.reshape(-1).tolist()] == vals
+            if not okk:
+                ctx.broke("correspondence", "generated Kernel.__call__ preparation: prepared rows",
+                          f"{cfg}: {nm}_ handed to forward has shape {tuple(t.shape)}, values {t.reshape(-1).tolist()[:12]}…; "
+                          f"regenerated preparation gives {parts[nm][:120]}")
+                return
+        if (data["k2"] is None) != data["seen"]["same_obj"]:
+            ctx.broke("correspondence", "generated Kernel.__call__ preparation: x2 defaults to x1_",
+                      f"{cfg}: x2_ is x1_ = {data['seen']['same_obj']}")
+    elif kind == "Kcdiag":
+        ctx.case("Kc|" + line)
+        res, out = data["res_shape"], data["out_shape"]
+        if rep not in ("true", "false"):
+            ctx.broke("correspondence", "generated diag decision", f"`{line}` -> {rep}")
+            return
+        pred = res[:-1] if rep == "true" else res
+        if tuple(pred) != tuple(out):
+            ctx.broke("correspondence", "generated `res.diagonal()` decision of Kernel.__call__(diag=True)",
+                      f"{data['cls']} kernel batch {data['kb']}, x1 batch {data['b1']}, x2 batch {data['b2']}, last_dim_is_batch="
+                      f"{data['ldb']}: forward returned shape {res}; regenerated decision {rep} predicts {tuple(pred)}, "
+                      f"the real call returns {tuple(out)}")
+    elif kind == "Kbranch":
+        ctx.case("Kb|" + line)
+        if rep != ("true" if data["generic"] else "false"):
+            ctx.broke("correspondence", f"generated branch condition of {data['which']} forward",
+                      f"(x1.requires_grad, x2.requires_grad, ard_num_dims, diag, last_dim_is_batch, trace_mode) = {data['cfg']}: "
+                      f"regenerated condition says generic={rep}, the real forward took the "
+                      f"{'generic' if data['generic'] else 'fast'} branch")
